@@ -49,6 +49,8 @@ CLAIMS = {
              "attacker who rearranges the tree between ANY two system calls (the i-th call is answered by the world of moment i; "
              "the worlds of different moments are unrelated and need not be well-formed; only the root directory itself stays put) "
              "returns only descriptors of objects that the kernel's d_path placed below the root at some moment of the call. "
+             "C02_kernel_under_attack (Props/C02_Kernel.lean): the same run for the kernel backend, worlds well-formed with the same "
+             "root — the descriptor returned was below the root in the world of the very moment of the successful openat2. "
              "Tie and oracle: attacker-interposition suite — for generated and hand-made "
              "trees/lookups with '..' and links, a mutation (move out of the root, replace by a link to a host dir/file, "
              "RENAME_EXCHANGE with a tree or host entry, move up) is performed on the real filesystem by the interposer before every "
